@@ -757,8 +757,56 @@ func checkLoopScope(w *World, r *Report) {
 	ctors := w.ctxConstructors()
 	helpers := w.shadowHelpers()
 	n := 0
+	// the for renderer and its parts: methods of ForNode and the unexported functions they reach
+	// through static calls (a loop-state struct with advance/renderBody methods, helpers)
+	forParts := map[*ssa.Function]bool{}
+	var frontier []*ssa.Function
 	for _, fn := range w.pkgFuncs() {
-		if fn.Signature.Recv() == nil || !isNamed(fn.Signature.Recv().Type(), twigPath, "ForNode") {
+		if fn.Signature.Recv() != nil && isNamed(fn.Signature.Recv().Type(), twigPath, "ForNode") {
+			forParts[fn] = true
+			frontier = append(frontier, fn)
+		}
+	}
+	for depth := 0; depth < 3; depth++ {
+		var next []*ssa.Function
+		for _, f := range frontier {
+			instrsOf(f, func(in ssa.Instruction) {
+				if c, ok := in.(ssa.CallInstruction); ok {
+					g := c.Common().StaticCallee()
+					if g != nil && isTwigFn(g) && !forParts[g] && len(g.Blocks) > 0 && g.Object() != nil && !g.Object().Exported() && g.Signature.Recv() != nil && !isNamed(g.Signature.Recv().Type(), twigPath, "RenderContext") {
+						forParts[g] = true
+						next = append(next, g)
+					}
+				}
+			})
+		}
+		frontier = next
+	}
+	reaches := func(from, to *ssa.Function) bool {
+		seen := map[*ssa.Function]bool{}
+		var walk func(f *ssa.Function, d int) bool
+		walk = func(f *ssa.Function, d int) bool {
+			if f == to {
+				return true
+			}
+			if seen[f] || d > 3 {
+				return false
+			}
+			seen[f] = true
+			found := false
+			instrsOf(f, func(in ssa.Instruction) {
+				if c, ok := in.(ssa.CallInstruction); ok && !found {
+					if g := c.Common().StaticCallee(); g != nil && forParts[g] {
+						found = walk(g, d+1)
+					}
+				}
+			})
+			return found
+		}
+		return walk(from, 0)
+	}
+	for _, fn := range w.pkgFuncs() {
+		if !forParts[fn] {
 			continue
 		}
 		type site struct {
@@ -805,8 +853,115 @@ func checkLoopScope(w *World, r *Report) {
 				}
 				return false
 			}
+			// (C) the context travels in a field of a loop-state value: the shadow is looked for in
+			// the function the context comes from, before every call that leads here
+			shadowedAtOrigin := func() bool {
+				// the first value along the origin chain that lives in another part of the for
+				// renderer which defers a shadow of this context
+				var v ssa.Value
+				var f *ssa.Function
+				for _, cand := range originChain(s.recv)[1:] {
+					var cf *ssa.Function
+					switch x := cand.(type) {
+					case *ssa.Parameter:
+						cf = x.Parent()
+					case ssa.Instruction:
+						cf = x.Parent()
+					}
+					if cf == nil || cf == fn || !forParts[cf] {
+						continue
+					}
+					hasDefer := false
+					instrsOf(cf, func(in ssa.Instruction) {
+						if d, ok := in.(*ssa.Defer); ok {
+							if c := w.shadowCallOfDefer(d, helpers); c != nil && sameValue(c.Call.Args[0], cand) {
+								hasDefer = true
+							}
+						}
+					})
+					if hasDefer {
+						v, f = cand, cf
+						break
+					}
+				}
+				if f == nil {
+					return false
+				}
+				nt, nf := originField(s.name, 0)
+				nameConst, nameIsConst := constString(s.name)
+				isDefer := func(in ssa.Instruction) bool {
+					d, ok := in.(*ssa.Defer)
+					if !ok {
+						return false
+					}
+					c := w.shadowCallOfDefer(d, helpers)
+					if c == nil || !sameValue(c.Call.Args[0], v) {
+						return false
+					}
+					if nameIsConst {
+						sv, ok := constString(c.Call.Args[1])
+						return ok && sv == nameConst
+					}
+					t2, f2 := originField(c.Call.Args[1], 0)
+					return f2 != "" && t2 == nt && f2 == nf
+				}
+				nSites, okAll := 0, true
+				instrsOf(f, func(in ssa.Instruction) {
+					c, ok := in.(ssa.CallInstruction)
+					if !ok || !okAll {
+						return
+					}
+					if _, isDefer := in.(*ssa.Defer); isDefer {
+						return
+					}
+					g := c.Common().StaticCallee()
+					if g == nil || !forParts[g] || !reaches(g, fn) {
+						return
+					}
+					nSites++
+					// the tests of node fields that control the binding (n.keyVar != "") hold in
+					// the caller as well: helper and caller read the same node
+					type assumption struct {
+						f  fieldRef
+						c  string
+						eq bool
+					}
+					var assume []assumption
+					bb := s.in.Block()
+					for d := bb.Idom(); d != nil; d = d.Idom() {
+						fr, ck, eqIdx, ok := fieldTest(d)
+						if !ok {
+							continue
+						}
+						for i, sc := range d.Succs {
+							other := d.Succs[1-i]
+							if (sc == bb || sc.Dominates(bb)) && !(other == bb || other.Dominates(bb)) && len(sc.Preds) == 1 {
+								assume = append(assume, assumption{fr, ck, i == eqIdx})
+							}
+						}
+					}
+					infeasible := func(b *ssa.BasicBlock, i int) bool {
+						fr, ck, eqIdx, ok := fieldTest(b)
+						if !ok {
+							return false
+						}
+						for _, a := range assume {
+							if a.f == fr && a.c == ck && (i == eqIdx) != a.eq {
+								return true
+							}
+						}
+						return false
+					}
+					if bad, _ := existsPathAvoiding(f, in, isDefer, infeasible); bad {
+						okAll = false
+					}
+				})
+				return okAll && nSites > 0
+			}
 			if bad, path := existsPathAvoiding(fn, s.in, isShadowDefer, nil); !bad {
 				r.ok("R09.3", ssaName(fn), construct, pos, "every feasible path first defers the restore of the previous binding of the same name on the same context", true)
+			} else if shadowedAtOrigin() {
+				r.ok("R09.3", ssaName(fn), construct, pos, "the context travels in a loop-state value; where it comes from, every path to a call that leads here first defers the restore of the previous binding", true)
 			} else if w.shadowedByCallersAt(fn, s.in, s.recv, s.name, helpers, 0) {
 				r.ok("R09.3", ssaName(fn), construct, pos, "the binding sits in a helper; at each of its call sites every feasible path first defers the restore of the previous binding of the same name on the context passed", true)
 			} else {
